@@ -476,8 +476,19 @@ impl Evaluate for Instance {
         // Reconstruct decision variable values
         let mut samples = samples.clone();
         for state in samples.states_mut() {
-            let mut new = eval_dependencies(&self.decision_variable_dependency, state?)?;
+            let state = state?;
+            let mut new = eval_dependencies(&self.decision_variable_dependency, state)?;
             used_ids.append(&mut new);
+            // Same completion as in `evaluate`: variables the problem does not use may be omitted
+            for v in &self.decision_variables {
+                if v.substituted_value.is_some() {
+                    continue;
+                }
+                if let HashMapEntry::Vacant(e) = state.entries.entry(v.id) {
+                    let bound: crate::Bound = v.try_into()?;
+                    e.insert(bound.nearest_to_zero());
+                }
+            }
         }
         let mut transposed = samples.transpose();
         let decision_variables: Vec<SampledDecisionVariable> = self
